@@ -161,6 +161,7 @@ fn run_part<P: Prop>(p: &P, tier: Tier, seed: u64, outfile: &str) {
     kv.put("distinct_saturated", out.stats.distinct_saturated);
     kv.put("nontrivial", out.stats.nontrivial);
     kv.put("steps", out.stats.steps);
+    kv.put("digest", out.stats.digest);
     kv.put("wall_s", format!("{:.3}", out.wall_s));
     for (k, v) in &out.stats.counters {
         kv.put(&format!("counter.{k}"), v);
@@ -251,6 +252,26 @@ fn cmd_replay(path: &str) -> i32 {
     }
     let comp = kv.get("property").unwrap_or("").to_string();
     let want = kv.get("check").unwrap_or("").to_string();
+    if want.ends_with(".hang") {
+        // a hang reproduces iff the case still does not finish within the time limit
+        let limit: u64 = std::env::var("VERIF_HANG_REPLAY_S").ok().and_then(|s| s.parse().ok()).unwrap_or(30);
+        let comp2 = comp.clone();
+        let (tx, rx) = std::sync::mpsc::channel();
+        std::thread::spawn(move || {
+            let r = dispatch!(comp2.as_str(), p => replay(p, &kv));
+            let _ = tx.send(r.is_ok());
+        });
+        return match rx.recv_timeout(std::time::Duration::from_secs(limit)) {
+            Ok(_) => {
+                println!("REPLAY-CLEAN component={comp} expected={want} (the case terminates)");
+                0
+            }
+            Err(_) => {
+                println!("REPLAY-VIOLATION component={comp} check={want} expected={want} (no result after {limit}s)");
+                exit(1)
+            }
+        };
+    }
     let res = dispatch!(comp.as_str(), p => replay(p, &kv));
     match res {
         Err(e) => {
@@ -447,13 +468,45 @@ fn spawn_part(comp: &str, build: &str, tier: Tier, seed: u64) -> Result<Option<P
     let out = format!("{VD}/target/parts/{comp}.{build}.part");
     let _ = std::fs::create_dir_all(format!("{VD}/target/parts"));
     let _ = std::fs::remove_file(&out);
-    let st = Command::new(&exe)
+    let o = Command::new(&exe)
         .args(["part", comp, tier.name(), &seed.to_string(), &out])
-        .status()
+        .stderr(std::process::Stdio::inherit())
+        .output()
         .map_err(|e| format!("cannot start {exe}: {e}"))?;
-    match st.code() {
+    match o.status.code() {
         Some(0) => {}
-        Some(3) => return Err(format!("HANG in component {comp} build {build}")),
+        Some(3) => {
+            // the watchdog saw a run that does not terminate
+            let text = String::from_utf8_lossy(&o.stdout).to_string();
+            let run = text
+                .lines()
+                .find(|l| l.starts_with("HANG "))
+                .and_then(|l| l.split("run=").nth(1))
+                .and_then(|r| r.split(' ').next())
+                .and_then(|r| r.parse::<u64>().ok());
+            return match (hang_check(comp), run) {
+                (Some(check), Some(run)) => {
+                    let path = format!("{VD}/replays/{comp}-{build}-{seed}-{run}-hang.replay");
+                    let _ = std::fs::create_dir_all(format!("{VD}/replays"));
+                    let tag = format!("{comp}/{}", if build == "simdbg" { "dbg" } else { "rel" });
+                    let st = Command::new(&exe)
+                        .args(["case-file", comp, &run.to_string(), &seed.to_string(), &tag, check, build, &path])
+                        .status();
+                    if !matches!(st, Ok(s) if s.success()) {
+                        return Err(format!("HANG in component {comp} build {build} run {run}; could not write a replay file"));
+                    }
+                    let mut kv = Kv::new();
+                    kv.put("evaluations", run + 1);
+                    kv.put("found", 1);
+                    kv.put("found.0.replay", &path);
+                    kv.put("found.0.check", check);
+                    kv.put("found.0.signature", "a simulated run does not terminate");
+                    kv.put("found.0.detail", format!("run {run} made no progress; case regenerated from (seed, run)"));
+                    Ok(Some(Part { kv }))
+                }
+                _ => Err(format!("HANG in component {comp} build {build}: {}", text.lines().find(|l| l.starts_with("HANG ")).unwrap_or(""))),
+            };
+        }
         c => return Err(format!("component {comp} build {build} exited with {c:?}")),
     }
     let text = std::fs::read_to_string(&out).map_err(|e| format!("no part file {out}: {e}"))?;
@@ -755,23 +808,94 @@ fn miri_batch<P: Prop>(p: &P, lo: u64, hi: u64, seed: u64) {
 
 fn miri_case<P: Prop>(p: &P, run: u64, seed: u64, path: &str) {
     let tag = miri_tag(p.id());
-    let mut rng = rng::Rng::new(rng::mix(seed, &tag, run));
+    case_file(
+        p,
+        run,
+        seed,
+        &tag,
+        "C14.miri",
+        "miri",
+        &format!("Miri reports undefined behaviour in component {}", p.id()),
+        path,
+    );
+}
+
+/// Regenerates the case of (seed, tag, run) -- generation is a pure function -- and writes it as a
+/// replay file with the given check id (used for findings that cannot report themselves: Miri UB
+/// aborts and hangs).
+#[allow(clippy::too_many_arguments)]
+fn case_file<P: Prop>(
+    p: &P,
+    run: u64,
+    seed: u64,
+    tag: &str,
+    check: &'static str,
+    build: &str,
+    signature: &str,
+    path: &str,
+) {
+    let mut rng = rng::Rng::new(rng::mix(seed, tag, run));
     let case = p.gen(&mut rng, Tier::Quick);
     let v = framework::Violation {
-        check: "C14.miri",
-        signature: format!("Miri reports undefined behaviour in component {}", p.id()),
+        check,
+        signature: signature.to_string(),
         detail: String::new(),
     };
     let mut kv = replay_kv(p, seed, run, &case, &v, 0);
     for e in kv.0.iter_mut() {
         if e.0 == "build" {
-            e.1 = "miri".to_string();
+            e.1 = build.to_string();
         }
     }
-    let text = format!("# flussab-sim replay file (run under Miri)\n{}", kv.render());
+    let text = format!("# flussab-sim replay file\n{}", kv.render());
     if std::fs::write(path, text).is_err() {
         eprintln!("cannot write {path}");
         exit(2);
+    }
+}
+
+fn hang_check(comp: &str) -> Option<&'static str> {
+    match comp {
+        "C01" => Some("C01.hang"),
+        "C04" => Some("C04.hang"),
+        "C09p" => Some("C09.hang"),
+        _ => None,
+    }
+}
+
+/// Determinism self-test: every component with 1 worker and with 16 workers must produce the same
+/// order-independent digest of per-run event-log hashes, the same counts and no violations.
+fn cmd_selftest() -> i32 {
+    let seed = seed_from_env();
+    let mut bad = 0;
+    for comp in ["C01", "C02", "C04", "C08", "C09p", "C09r", "C10", "C11", "C13", "C14r", "C14w", "C16"] {
+        let runs = if comp == "C10" { 48 } else if comp == "C04" { 2_000 } else { 40_000 };
+        let mut res = vec![];
+        for threads in [1usize, 16, 5] {
+            let o = dispatch!(comp, p => {
+                let out = search(p, &Opts { seed, tier: Tier::Quick, threads, runs_override: Some(runs), determinism_probe: 32 });
+                (out.stats.digest, out.evaluations, out.stats.distinct.len(), out.found.len(), out.nondeterministic.len())
+            });
+            res.push(o);
+        }
+        let ok = res.iter().all(|r| *r == res[0]) && res[0].4 == 0;
+        println!(
+            "selftest component={comp} runs={runs} digest={:016x} evaluations={} distinct={} violations={} : {}",
+            res[0].0,
+            res[0].1,
+            res[0].2,
+            res[0].3,
+            if ok { "deterministic across 1/16/5 workers" } else { "MISMATCH" }
+        );
+        if !ok {
+            println!("  {res:?}");
+            bad += 1;
+        }
+    }
+    if bad > 0 {
+        2
+    } else {
+        0
     }
 }
 
@@ -835,6 +959,19 @@ fn main() {
         }
         Some("replay") if args.len() >= 3 => cmd_replay(&args[2]),
         Some("gencheck") => cmd_gencheck(),
+        Some("selftest") => cmd_selftest(),
+        Some("case-file") if args.len() >= 9 => {
+            // case-file <comp> <run> <seed> <tag> <check> <build> <path>
+            let run: u64 = args[3].parse().unwrap_or(0);
+            let seed: u64 = args[4].parse().unwrap_or(DEFAULT_SEED);
+            let comp = args[2].clone();
+            let check: &'static str = match hang_check(&comp) {
+                Some(c) if c == args[6] => c,
+                _ => "hang",
+            };
+            dispatch!(comp.as_str(), p => case_file(p, run, seed, &args[5], check, &args[7], "the run does not terminate", &args[8]));
+            0
+        }
         Some("miri-noop") => {
             println!("MIRI-NOOP build={}", build_name());
             0
